@@ -10,7 +10,7 @@ import ast
 from dataclasses import dataclass, field
 from typing import Dict, List, Optional, Tuple
 
-from .expr import C, FALSE, NONE, SELF, TRUE, _norm_node, is_const, norm, root_of, show
+from .expr import C, FALSE, NONE, SELF, TRUE, _norm_node, is_const, is_num_const, norm, root_of, show
 from .model import AnalysisError, ClassInfo, FuncInfo, ModuleInfo, Program, mangle
 
 BINOPS = {ast.Add: "+", ast.Sub: "-", ast.Mult: "*", ast.Div: "/", ast.FloorDiv: "//", ast.Mod: "%",
@@ -800,7 +800,7 @@ class Walker:
     def split_value(self, v, s: State, test) -> List[Tuple[State, bool]]:
         """branch on an already evaluated value; a stored boolean combination (x = a or b; if x:) is decided operand by operand,
         exactly like the same combination written in the test"""
-        if v[0] in ("or", "and") and len(v) == 2 and isinstance(test, ast.Name):
+        if v[0] in ("or", "and") and len(v) == 2 and (isinstance(test, ast.Name) or _tuple_compare(test)):
             is_and = v[0] == "and"
             results = []
             pending = [s]
@@ -1047,6 +1047,10 @@ class Walker:
         out = []
         for s, vals in self.ev_seq(n.values, st):
             vals = [self.decide(v, s) for v in vals]
+            if k == "or" and len(vals) == 2 and is_num_const(vals[1]) and not isinstance(vals[1][1], bool):
+                # `x or 1` used as a value: x when x is truthy, else the default
+                out.append((s, ("phi", vals[0], vals[0], vals[1])))
+                continue
             x = (k, tuple(vals))
             out.append((s, _norm_node(x) or x))
         return out
@@ -1056,7 +1060,17 @@ class Walker:
         for s, vals in self.ev_seq([n.left] + list(n.comparators), st):
             parts = []
             for i, op in enumerate(n.ops):
-                x = ("cmp", CMPOPS[type(op)], vals[i], vals[i + 1])
+                a, b, o = vals[i], vals[i + 1], CMPOPS[type(op)]
+                if o in ("==", "!=") and a[0] == "tup" and b[0] == "tup" and len(a[1]) == len(b[1]) and a[1]:
+                    # (a1, a2) == (b1, b2)  is  a1 == b1 and a2 == b2 ;  != is the disjunction of the component tests
+                    comps = []
+                    for u, w in zip(a[1], b[1]):
+                        c = ("cmp", o, u, w)
+                        comps.append(self.decide(_norm_node(c) or c, s))
+                    x = ("and" if o == "==" else "or", tuple(comps))
+                    parts.append(_norm_node(x) or x)
+                    continue
+                x = ("cmp", o, a, b)
                 x = _norm_node(x) or x
                 parts.append(self.decide(x, s))
             if len(parts) == 1:
@@ -1486,6 +1500,10 @@ class Walker:
             s.loops = saved_loops
             out.append((s, rv))
         return out
+
+
+def _tuple_compare(test) -> bool:
+    return isinstance(test, ast.Compare) and isinstance(test.left, ast.Tuple) and all(isinstance(c, ast.Tuple) for c in test.comparators)
 
 
 def _transparent_decorator(d: str) -> bool:
